@@ -733,7 +733,7 @@ async fn run(client_side: bool) {
         Some(s) => s,
         None => return,
     };
-    let Victim { mut conn, mut sess, mut sender, mut receiver } = victim;
+    let Victim { conn, mut sess, mut sender, mut receiver } = victim;
     let group = if client_side { 1 } else { 2 };
     // ---- traffic in flight: a partial delivery towards the endpoint's receiver, and two unsettled deliveries from its sender
     let mut outcome_futs = Vec::new();
@@ -762,10 +762,23 @@ async fn run(client_side: bool) {
     let (bytes, then_eof, note) = hostile_bytes(kind, &mut ctx);
     sim::append_config(&format!(" [{}]", note));
     sim::fault("hostile-action");
-    let close_task_done: Slot<String> = Slot::new();
+    let close_task_done: Slot<Result<(), String>> = Slot::new();
+    let mut conn = Some(conn);
     if during_close {
         // the application's close is under way when the hostile bytes arrive
         sim::fault("hostile-during-close");
+        let c = conn.take().unwrap();
+        let cd = close_task_done.clone();
+        sim::spawn("victim-close", async move {
+            let r = match c {
+                Conn::C(mut c) => sim::op("connection close (concurrent)", c.close()).await.map(|r| r.map_err(|e| format!("{:?}", e))),
+                Conn::L(mut c) => sim::op("connection close (concurrent)", c.close()).await.map(|r| r.map_err(|e| format!("{:?}", e))),
+            };
+            if let Some(r) = r {
+                cd.put(r);
+            }
+        });
+        sim::yield_now().await;
     }
     peer.send_raw(&bytes).await;
     if then_eof {
@@ -941,8 +954,8 @@ async fn run(client_side: bool) {
         }
     }
     // a fresh session shows that a connection that is still up is not wedged
-    if !conn_down {
-        match &mut conn {
+    if !conn_down && conn.is_some() {
+        match conn.as_mut().unwrap() {
             Conn::C(c) => match sim::op("fresh session begin", sim::in_group(group, Session::begin(c))).await {
                 Some(Ok(mut s)) => {
                     match sim::op("fresh session end", s.end()).await {
@@ -979,8 +992,9 @@ async fn run(client_side: bool) {
         }
     }
     let close_result = match conn {
-        Conn::C(mut c) => sim::op("connection close", c.close()).await.map(|r| r.map_err(|e| format!("{:?}", e))),
-        Conn::L(mut c) => sim::op("connection close", c.close()).await.map(|r| r.map_err(|e| format!("{:?}", e))),
+        Some(Conn::C(mut c)) => sim::op("connection close", c.close()).await.map(|r| r.map_err(|e| format!("{:?}", e))),
+        Some(Conn::L(mut c)) => sim::op("connection close", c.close()).await.map(|r| r.map_err(|e| format!("{:?}", e))),
+        None => sim::op("connection close (concurrent) result", close_task_done.take()).await,
     };
     let close_result = match close_result {
         Some(r) => r,
@@ -989,17 +1003,23 @@ async fn run(client_side: bool) {
     if close_result.is_err() {
         errors_seen += 1;
     }
-    let _ = close_task_done;
     // an endpoint that shut a scope down because of the peer makes the error visible to the application
     let shut_with_error = after.close_error.is_some() || after.end_error.is_some() || after.detached.iter().any(|(_, e)| e.is_some());
-    if shut_with_error && errors_seen == 0 {
+    if shut_with_error && errors_seen == 0 && !during_close {
         sim::violation(
             "shutdown-invisible-to-application",
             format!("the endpoint answered the hostile action with {:?}, yet no call on any handle reported an error (connection.close() = {:?})", after, close_result),
         );
         return;
     }
-    if after.close_error.is_some() && close_result.is_ok() {
+    if transport_gone && !after.close && !then_eof && kind != Hostile::FramesAfterClose && !during_close && close_result.is_ok() {
+        sim::violation(
+            "shutdown-invisible-to-application",
+            format!("the endpoint dropped the transport without a close frame after the hostile action; connection.close() returned Ok and {} calls reported an error", errors_seen),
+        );
+        return;
+    }
+    if after.close_error.is_some() && close_result.is_ok() && !during_close {
         sim::violation(
             "shutdown-invisible-to-application",
             format!("the endpoint closed the connection with {:?}; connection.close() returned Ok", after.close_error),
